@@ -322,3 +322,14 @@ def run(cx):
             a_it = [x[3] for x in walk(addr) if x[0] == "call" and name_matches(x[1], "Iterator::next")]
             p_it = [x[3] for x in walk(pid) if x[0] == "call" and name_matches(x[1], "Iterator::next")]
             ob.require(bool(a_it) and set(a_it) == set(p_it) and mentions_field(addr, "address"), "pin/address-of-same-peer", "dialed address and pinned id do not come from the same known-peer entry", hc.path)
+
+    with cx.ob("C03.8", "R-FLOW", "the identity a dial returns is the key the handshake authenticated: Connection.peer_id = id of the first (end-entity) certificate of the same connection (C01.7 re-evaluated)") as ob:
+        from . import c01
+        sub = cx.__class__("C03", prog, cx.tier, cx.config, cx.tree, repo=cx.repo)
+        c01.run(sub)
+        w = [x for x in sub.obs if x.oid == "C01.7"]
+        ob.count(w[0].evals if w else 0)
+        bad = [v for x in w for v in x.violations]
+        ob.require(len(w) == 1 and not bad, "returned-identity/authenticated-certificate",
+                   "the PeerId of a connection is not derived from the certificate the pin / signature check authenticated: " + "; ".join(v.msg for v in bad)[:300],
+                   "anemo::connection::Connection::new")
